@@ -3744,13 +3744,18 @@ impl<'a> Writeable for OutboundTrampolinePayload<'a> {
 				keysend_preimage,
 				custom_tlvs,
 			} => {
+				// The keysend preimage lives in the experimental range (bLIP 3), which is where
+				// `InboundTrampolinePayload::read` looks for it.
+				let keysend_tlv = keysend_preimage.map(|preimage| (5482373484, preimage.encode()));
+				let mut custom_tlvs: Vec<&(u64, Vec<u8>)> =
+					custom_tlvs.iter().chain(keysend_tlv.iter()).collect();
+				custom_tlvs.sort_unstable_by_key(|(typ, _)| *typ);
 				_encode_varint_length_prefixed_tlv!(w, {
 					(2, HighZeroBytesDroppedBigSize(*sender_intended_htlc_amt_msat), required),
 					(4, HighZeroBytesDroppedBigSize(*cltv_expiry_height), required),
 					(10, *encrypted_tlvs, required_vec),
 					(12, intro_node_blinding_point, option),
-					(18, HighZeroBytesDroppedBigSize(*total_msat), required),
-					(20, keysend_preimage, option)
+					(18, HighZeroBytesDroppedBigSize(*total_msat), required)
 				}, custom_tlvs.iter());
 			},
 		}
